@@ -167,8 +167,8 @@ CHECKS = {
  "C10": dict(text="Partial. The statement is about I/O event traces and what a power loss keeps of them (Model/Durable.lean). Theorems, for traces of any length and every power-loss point: "
              "C10_acked_appends_durable (a trace that follows the append discipline - entry write synced by O_SYNC or a later sync of that file before the acknowledgement, file creation followed by a "
              "directory sync - keeps the write of every acknowledged entry durable at every later point), C10_acked_consumption_durable, C10_durable_monotone, C10_checker_sound (the executable "
-             "checkers the driver runs are sound for the two disciplines). FALSE for the consumption clause: C10_counterexample_renameWithoutDirSync = the engine's index persist (open finding "
-             "indexRenameNotDurable, seen in every recorded trace with a consuming read). Tie: hook H1 records every storage write (with the O_SYNC status of its descriptor), io_uring write, file sync, "
+             "checkers the driver runs are sound for the two disciplines); C10_counterexample_renameWithoutDirSync = the index persist of the pinned tree (rename without directory sync: finding "
+             "indexRenameNotDurable, seen in every recorded trace with a consuming read, repaired by fix 5288e6e - every recorded trace is read-disciplined now). Tie: hook H1 records every storage write (with the O_SYNC status of its descriptor), io_uring write, file sync, "
              "file creation, directory sync, index sync/rename of the real engine under SyncEach (~170 programs per quick run, both backends, rotation, roll-over, a NoFsync instance constructed "
              "first in 40% of them); the driver decides the disciplines on each recorded trace.",
              note=BASE_NOTE + "What a real disk keeps is assumed (the statement's own power-loss model), not observed; no post-power-loss directory is reconstructed and reopened. Completeness of the "
